@@ -344,12 +344,22 @@ def matrix_pool(tier, script_fn):
         ('{a:true}', {'a': True}),
         ('{a:1.0}', {'a': 1.0}),
     ]
+    # Fractional magnitudes on both sides of 1 (a negative base to such a power is not a real number), and datetimes with a
+    # sub-millisecond part (their text shows the millisecond truncated: .999, none/.000, .001).
+    pool += [
+        ('1.5', 1.5),
+        ('-1.5', -1.5),
+        ('2.5', 2.5),
+        ('dt.999500us', datetime.datetime(2024, 3, 10, 23, 59, 59, 999500)),
+        ('dt.000500us', datetime.datetime(2024, 3, 10, 0, 0, 0, 500)),
+        ('dt.001499us', datetime.datetime(2024, 3, 10, 0, 0, 0, 1499)),
+    ]
     if tier != 'quick':
         pool += [
             ('-3', -3),
             ('10', 10),
             ('0.1', 0.1),
-            ('1.5', 1.5),
+            ('0.75', 0.75),
             ('-7.0', -7.0),
             ('1e-300', 1e-300),
             ('86400000', 86400000),
